@@ -11,6 +11,23 @@ TRUST = (
 
 # pid -> dict(technique, text, note, design_ref)
 CLAIMED = {
+    "C10": dict(
+        technique="static analysis: must-pass-through on the CFG (discard step before fixes are handed over), who-may-construct table for SourceFix, must-guard of patch appends, def-use of source-only slices",
+        text="Decides that the four independent template-safety filters are wired on every path: every LintResult passes discard_unsafe_fixes unless the "
+        "rule class is in the reviewed template_safe_fixes table; SourceFix is constructed only in the reviewed functions; generate_source_patches "
+        "keeps a patch touching non-literal slices only if it is an explicit source patch or a zero-length boundary insert; fix_string hands the "
+        "templated file's source-only slices to the slicer.",
+        note="Does not decide that the filters' slice arithmetic is right for every template. " + TRUST,
+        design_ref="DESIGN.md §3 C10",
+    ),
+    "C13": dict(
+        technique="static analysis: must-guard (dominance of tree adoption by the validity component) and def-use/typestate of the validation request through apply_fixes' recursion",
+        text="Decides that the fix loop only adopts a tree whose apply_fixes validity component was true, that every structure-changing edit kind and "
+        "every failed child validation sets the validation request, and that a returned validity can only come from validate_segment_with_reparse, "
+        "the explicit unparsable arms, or constant False — never a constant True or a value left over from a child.",
+        note="Does not decide that validation of the edited token list implies that the re-lexed text parses (value-level gap named by the property itself). " + TRUST,
+        design_ref="DESIGN.md §3 C13",
+    ),
     "C18": dict(
         technique="static analysis: path-sensitive gate proof over the CFG (relevant-branch DNF dataflow) with suppression-filter kind inference of counts; interprocedural lifting of sinks to call sites",
         text="Decides, for every call that can produce or persist fixed text (fix_string / persist_tree / persist_changes outside their owning "
@@ -35,6 +52,22 @@ CLAIMED = {
         "stats' exit code is fail_code iff the filtered violations statistic is positive, that the exit constants are 0/1/2 and that user errors exit 2 via the CLI handler.",
         note="Does not decide the 'exactly when' direction for every input/config combination; user errors swallowed by the parallel runner's funnel are C24's R24d. " + TRUST,
         design_ref="DESIGN.md §3 C22",
+    ),
+    "C30": dict(
+        technique="static analysis: must-guard / def-use wiring checks on merge_source_patches, the slicer and the builder (CFG dominance, sorted() provenance)",
+        text="Decides the wiring that makes overlapping or repeated application impossible: a patch joins the merged list only after the duplicate test "
+        "and the conflict test against every kept patch; the slicer only ever receives lists that flow from sorted(...) on source start; a patch starting "
+        "before the cursor is skipped before its slice is emitted; the builder applies a patch only on exact slice equality and at most once per slice.",
+        note="Does not decide that _patches_conflict's interval arithmetic is right for every pair. " + TRUST,
+        design_ref="DESIGN.md §3 C30",
+    ),
+    "C33": dict(
+        technique="static analysis: def-use of every LintedFile construction (violations = deduplicate_in_source_space(...)), structure of the seen-set filter and sort keys, content of source_signature",
+        text="Decides that every LintedFile is built from the de-duplicated, (line, pos)-sorted list, that the de-duplication keeps exactly the violations "
+        "whose source signature was not seen and records each kept one, that records are serialised sorted by (line, pos, code), and that the signature "
+        "covers check tuple, description, edit raws and source-fix source ranges but no templated-space attribute.",
+        note="Does not decide that equal signatures mean the same violation for a user. " + TRUST,
+        design_ref="DESIGN.md §3 C33",
     ),
     "C25": dict(
         technique="static analysis: path-spelling kind inference (abstract interpretation over discovery.py) + CFG must-guard + def-use",
